@@ -150,6 +150,13 @@ impl Archetype {
         self.data[state].state.release_mut();
     }
 
+    /// Raw borrow flag of the column holding `T`, for verification harnesses
+    #[cfg(hecs_verif)]
+    #[doc(hidden)]
+    pub fn verif_borrow_raw<T: Component>(&self) -> Option<usize> {
+        self.get_state::<T>().map(|s| self.data[s].state.verif_raw())
+    }
+
     /// Number of entities in this archetype
     #[inline]
     pub fn len(&self) -> u32 {
